@@ -10,15 +10,56 @@ def gen(run):
 
 
 fam.make(globals(), "C05", ["C05"], gen, kinds=True)
-COQ_TARGETS = ["theories/Mp4/San.vo", "theories/Mp4/Spec.vo"]
-THEOREMS = []
-TRUSTED = fam.TRUSTED_COMMON
-ASSUMPTIONS = fam.ASSUMPTIONS_COMMON + ["C05 is stated for max_metadata_size < 2^32 (a chunk-offset table of 2^32 bytes or more is refused by the code's u32 arithmetic)"]
+COQ_TARGETS = ["theories/Props/C05.vo"]
+REQUIRES = ["From Coq Require Import List NArith ZArith Bool.", "From Coq.Strings Require Import Byte.",
+            "From MS Require Import Base.Bytes Base.Outcome Base.Prog Mp4.Header Mp4.Box Mp4.San Mp4.Spec Props.C05.",
+            "Import ListNotations.", "Open Scope N_scope."]
+COQCHK = ["MS.Props.C05"]
+_PRE = """forall (cfg : config) (lenient : bool) (inp : input) (fuel : nat),
+  max_metadata_size cfg < 4294967296 ->
+  ilen inp <= U64MAX ->
+  (forall t, cumulative_mdat_box_size cfg = Some t -> t <= U32MAX) ->"""
+THEOREMS = [
+    ("C05_accept_iff_rules", _PRE + """
+  mp4_sanitize cfg lenient U64MAX' inp fuel <> OutOfFuel ->
+  is_ok (mp4_sanitize cfg lenient U64MAX' inp fuel) =
+  accept_spec {| c_max := max_metadata_size cfg; c_cum := cumulative_mdat_box_size cfg |} inp
+  && negb (match tiling (cumulative_mdat_box_size cfg) inp with Some bs => overflow_case inp bs | None => false end)"""),
+    ("C05_none_iff_moov_first", """forall (cfg : config) (lenient : bool) (inp : input) (fuel : nat) (o : out),
+  max_metadata_size cfg < 4294967296 ->
+  ilen inp <= U64MAX ->
+  (forall t, cumulative_mdat_box_size cfg = Some t -> t <= U32MAX) ->
+  mp4_sanitize cfg lenient U64MAX' inp fuel = Ok o ->
+  exists bs, tiling (cumulative_mdat_box_size cfg) inp = Some bs /\\
+    (o_metadata o = None <-> plan_of inp bs = Some NoRewrite) /\\
+    (plan_of inp bs = Some NoRewrite <->
+     exists f m d, the_ftyp bs = Some f /\\ last_moov bs = Some m /\\ first_mdat bs = Some d /\\ tb_off m < tb_off d)"""),
+    ("C05_strict_lenient_agree", """forall (cfg : config) (inp : input) (fuel : nat),
+  max_metadata_size cfg < 4294967296 ->
+  ilen inp <= U64MAX ->
+  (forall t, cumulative_mdat_box_size cfg = Some t -> t <= U32MAX) ->
+  mp4_sanitize cfg false U64MAX' inp fuel <> OutOfFuel ->
+  mp4_sanitize cfg true U64MAX' inp fuel <> OutOfFuel ->
+  is_ok (mp4_sanitize cfg false U64MAX' inp fuel) = is_ok (mp4_sanitize cfg true U64MAX' inp fuel)"""),
+]
+TRUSTED = fam.TRUSTED_COMMON + ["axioms: none (Print Assumptions of the three theorems = Closed under the global context)"]
+ASSUMPTIONS = fam.ASSUMPTIONS_COMMON + [
+    "C05 is stated for max_metadata_size < 2^32 (a chunk-offset table of 2^32 bytes or more is refused by the code's u32 arithmetic)",
+    "input length <= u64::MAX; the in-memory cursor can seek up to u64::MAX (max_seek = U64MAX'); fuel: the theorem excludes OutOfFuel, "
+    "Mp4/LoopProofs.v loop_fuel_enough gives ilen/8+1 as sufficient",
+]
 RULE = ("seed layouts (unit-test shapes and neighbours); gap lattice; structure-aware random rewrite layouts (dense and sparse, all header forms); "
         "size-field pathologies x 5 box kinds x 2 header forms; truncation at every byte of 2 seed files; overshoot by 1..2^63 on sparse streams; "
         "moov tree mutations (random point mutations and delete/duplicate/insert at each of the 5 levels); config lattices; all top-level sequences up to "
         "length 3 (quick) / 5 (thorough) over {ftyp,moov,mdat,free,skip,meta,meco,abcd,uuid}. Non-trivial = at least 40 bytes present; distinct = distinct case line.")
-LEVEL_TEXT = "TBD"
-LEVEL_NOTE = "TBD"
+LEVEL_TEXT = ("Theorems C05_accept_iff_rules, C05_none_iff_moov_first, C05_strict_lenient_agree (Coq, all inputs of any length up to 2^64-1, all "
+              "configurations with limit < 2^32, both Skip behaviours, no bound on the number or nesting of boxes) relate the hand-written model of "
+              "sanitize_async_with_config to the independent specification accept_spec / plan_of / overflow_case of Mp4/Spec.v: the result is Ok exactly "
+              "when the input is tiled by complete boxes, the layout/ftyp/moov/mdat rules hold and the chunk-offset relocation does not overflow; the "
+              "metadata is None exactly when the last moov starts before the first mdat. The model is tied to /repo by the differential check of every "
+              "run, and the extracted specification is evaluated on the implementation's outputs as the oracle.")
+LEVEL_NOTE = ("Trusted: Coq kernel; the hand-written model (Header/Box/San.v) and its correspondence batch; the specification Spec.v as the reading "
+              "of the property text (version-0 table = version 0 and flags 0; cumulative_mdat_box_size takes part in the tiling); extraction + OCaml "
+              "driver; the Rust harness. No axioms. Limits >= 2^32 are outside the statement (sampled only).")
 TECHNIQUE = "Coq proof about a hand-written model + extracted-model/Rust differential check + extracted specification as oracle"
 DESIGN_REF = "DESIGN.md section 7 (C05)"
